@@ -83,3 +83,17 @@ def c07_star_plus_alias(v):
     if not (isinstance(w, (list, tuple)) and len(w) == 2 and isinstance(w[1], str)):
         return False
     return "import *" in w[1] and " as " in w[1]
+
+
+def c08_underscore_number(v):
+    """C08: numeric literals with underscores (1_000, 0xFFFF_FFFF) are consumed only up to the underscore: the Constant's region is too short."""
+    import re
+    why = v.get("why") or ""
+    return "does not cover the interpreter's span" in why and re.search(r"[0-9a-fA-F]_[0-9a-fA-F]", why.split("): ", 1)[-1]) is not None
+
+
+def c08_kwonly_default_with_hash(v):
+    """C08 #12: _arguments ignores keyword-only / positional-only parameters; their text is scanned as a gap, so a '#' inside a keyword-only default
+    (stdlib configparser.py: `comment_prefixes=('#', ';')` after `*`) derails token matching."""
+    w = v.get("witness") or []
+    return "annotation raised" in (v.get("why") or "") and isinstance(w, list) and len(w) == 2 and str(w[1]).endswith("configparser.py")
